@@ -200,8 +200,10 @@ func (ps *parser) quant() Expr {
 		if ps.isId("in") {
 			ps.p++
 			q.Lo = ps.add()
-			ps.expectOp("..")
-			q.Hi = ps.add()
+			if ps.isOp("..") {
+				ps.p++
+				q.Hi = ps.add()
+			}
 		}
 		ps.expectOp("::")
 		q.Body = ps.quant()
